@@ -10,7 +10,7 @@ def feeder_run(cmd, data, chunk, env, timeout=120):
     """Feed `data` to cmd's stdin in chunks of `chunk` bytes (None = all at once), waiting for the pipe to drain between chunks now and then."""
     e = dict(os.environ)
     e.update(env)
-    p = subprocess.Popen(cmd, stdin=subprocess.PIPE, stdout=subprocess.PIPE, stderr=subprocess.PIPE, env=e)
+    p = subprocess.Popen(cmd, stdin=subprocess.PIPE, stdout=subprocess.PIPE, stderr=subprocess.PIPE, env=e, preexec_fn=core._die_with_parent)
     err = []
 
     def feed():
